@@ -84,7 +84,7 @@ def build_history(rng: random.Random):
         rng.shuffle(faults)
         cfgs.extend(f[1] for f in faults[:rng.randint(1, 3)])
         # same configuration, other prefix
-        cfgs.append(dict(enc, prefix=['Alt', 'Ns'] if enc.get('prefix') is None else None))
+        cfgs.append(dict(enc, prefix=['QZAlt', 'QZNs'] if enc.get('prefix') is None else None))
         models.append({'doc': M.to_json(gen.model), 'cfgs': cfgs})
     steps = []
     for _ in range(rng.randint(3, 12)):
